@@ -37,7 +37,7 @@ PROPS['C13']['harnesses'] = SEQ_H + [A(src='harness/c13_ilist.cpp', san='asan')]
 
 HM_H = [A(src='harness/c14_hashmap.cpp', san='asan')]
 PROPS['C14'] = A(level='model_checking', harnesses=HM_H, budget=A(quick=150, thorough=1500),
-    bounds=A(quick='6 hash functions returning 64-bit values (identity, constant, low bit, x10, a 64-bit mix with significant high bits, a negative/sign-extended one) x 12 start states (pre-filled to 0,8,9,10,11,19,20,21,39,40 entries; filled to 12/21 and emptied) x all histories of depth 4 (5 from empty) over insert(const&/&&)/operator[]/operator[]=/remove on a 5-key alphabet of present and absent keys; get/find/const find/size/empty/iteration for every key of the universe after every transition',
+    bounds=A(quick='6 hash functions returning 64-bit values (identity, constant, low bit, x10, a 64-bit mix with significant high bits, a negative/sign-extended one) x 12 start states (pre-filled to 0,8,9,10,11,19,20,21,39,40 entries; filled to 12/21 and emptied) x all histories of depth 4 (5 from empty) over insert(const&/&&)/operator[]/operator[]=/remove on a 5-key alphabet of present and absent keys; get/find/const find/size/empty/iteration for every key of the universe after every transition; the same for the library functors frg::hash<int> (negative keys), frg::hash<int64_t>, frg::hash<uint64_t> (keys above 2^32) and frg::hash<T*> from 5 start states each',
              thorough='7 hash functions, depth 5 (6 from empty)'),
     assumptions=TRUST)
 
@@ -88,7 +88,7 @@ PROPS['C18'] = A(level='exploration', engine='enumerate', harnesses=[A(src='harn
     assumptions=TRUST + ['std::bitset, std::array, std::mt19937 as references; pcg32 reference transcribed from pcg-c-basic'])
 
 PROPS['C19'] = A(level='exploration', engine='enumerate', harnesses=[A(src='harness/c19_format.cpp', san='asan')], budget=A(quick=150, thorough=1500),
-    bounds=A(quick='printf: every ISO-defined flag subset of {-,+,space,#,0,apostrophe} x width in {absent,0,1,2,3,5,8,11,20,64,70} (literal or *) x precision in {absent,".",0,1,2,3,5,8,11,20,64,70} (literal or .*) x length in {none,hh,h,l,ll,z,t,j} x conversion in {d,u,o,x,X} (i: default and hh) x 8-11 boundary values per type (0, +-1, +-42, min, max, min+1, max-1, out-of-range for hh/h), negative * arguments; %c, %s (embedded NUL, exact-size unterminated source with bounding precision), %p, %%, text; positional n$ permutations. fmt: every spec string of length <=4 over {0,1,9,:,b,c,d,i,o,x,X,h} with 1-3 int arguments from 3 value triples + char/string arguments + 20 malformed shapes. logger: Limit in {2,3,4,8,128}, every message length 0..3*Limit+2 in 3 append modes',
+    bounds=A(quick='printf: every ISO-defined flag subset of {-,+,space,#,0,apostrophe} x width in {absent,0,1,2,3,5,8,11,20,64,70} (literal or *) x precision in {absent,".",0,1,2,3,5,8,11,20,64,70} (literal or .*) x length in {none,hh,h,l,ll,z,t,j} x conversion in {d,u,o,x,X} (i: default and hh) x 8-11 boundary values per type (0, +-1, +-42, min, max, min+1, max-1, out-of-range for hh/h), negative * arguments; %c, %s (embedded NUL, exact-size unterminated source with bounding precision), %p, %%, text; positional n$ permutations. the apostrophe flag under 9 locale grouping strings x 3 separators x 16 flag subsets x 9 widths x 7 precisions x 26 magnitudes x {d,i,u} against the lconv/POSIX grouping rule. fmt: every spec string of length <=4 over {0,1,9,:,b,c,d,i,o,x,X,h} with 1-3 int arguments from 3 value triples + char arguments -128..127 as integers and as characters + string arguments + 20 malformed shapes. logger: Limit in {2,3,4,8,128}, every message length 0..3*Limit+2 in 3 append modes',
              thorough='printf widths and precisions 0..70 in full, i with every length modifier; fmt specs of length <=5'),
     rule='cases = every point of the stated product grammar / every spec string, enumerated exhaustively; each (directive, argument values) pair is distinct by construction; all are non-trivial (each is compared byte for byte with glibc snprintf in the C locale, resp. with an independent interpreter of the documented {}-grammar)',
     technique='exhaustive enumeration of the directive product grammar executed on the real implementation against glibc snprintf / a reference interpreter',
